@@ -41,7 +41,34 @@ def _gen_plan(seed, tier):
             # (Powell spends ~50 cost calls per iteration, each through up to 100 rounds of the constraint loop)
             for o in ops:
                 if o['op'] == 'set' and o['what'] == 'limits' and (o['arg'][0] is None or o['arg'][0] > 12): o['arg'][0] = 6 + seed % 7
+    # a first box given in whole numbers (Python ints, as users write them: SetStrictRanges([0,0],[10,10])), later replaced by a
+    # fractional one between two iterations
+    r5 = _sub_rng5(seed, 'plan.c02.intbox')
+    b0 = next((o for o in ops if o['op'] == 'set' and o['what'] == 'bounds' and o.get('arg') and not o['arg'].get('invalid')), None)
+    first = next((i for i, o in enumerate(ops) if o['op'] in ('step', 'solve')), None)
+    if r5.random() < 0.15 and b0 is not None and first is not None and ops.index(b0) < first and not hostile \
+       and all(abs(v) < 1e6 for v in b0['arg']['lo'] + b0['arg']['hi']):
+        import math
+        lo = [int(math.floor(v)) for v in b0['arg']['lo']]; hi = [int(math.ceil(v)) for v in b0['arg']['hi']]
+        # (the same box in every earlier bounds op, so that the solver's first box really is the integer one)
+        for o in ops[:first]:
+            if o['op'] == 'set' and o['what'] == 'bounds' and o.get('arg') and not o['arg'].get('invalid'):
+                o['arg'] = dict(o['arg'], lo=list(lo), hi=list(hi))
+        for o in ops[:first]:
+            if o['op'] == 'set' and o['what'] == 'constraint': o['arg'] = None
+        new_lo = []; new_hi = []
+        for a, c in zip(lo, hi):
+            w = c - a
+            if w <= 0: new_lo.append(a); new_hi.append(c); continue
+            f1 = r5.choice([0.0, 0.25, 0.5, 0.5, 0.75]) * min(1.0, w / 3.0); f2 = r5.choice([0.0, 0.25, 0.5, 0.5, 0.75]) * min(1.0, w / 3.0)
+            new_lo.append(a + f1); new_hi.append(c - f2)
+        at = first + 1
+        ops.insert(at, {'op': 'set', 'what': 'bounds', 'arg': dict(b0['arg'], lo=new_lo, hi=new_hi)})
+        ops.insert(at + 1, {'op': 'step', 'n': r5.randint(1, 4)})
+        plan['ops'] = [o for o in ops if not (o['op'] == 'set' and o['what'] == 'constraint' and o['arg'] is None and ops.index(o) < first)]
     return plan
+
+from ..env import sub_rng as _sub_rng5
 
 def _run_plan(plan):
     return solverplan.run_solver_plan(plan, ORACLES)
